@@ -17,5 +17,7 @@ from octacheck.inline import body_digest  # noqa: E402
 
 # qualified name -> digest of the body (so that a helper that was merely RENAMED is recognised as the old one, not as new)
 out = {m.name: {q: body_digest(f.node) for q, f in sorted(m.functions.items())} for m in p.modules.values()}
+for m in p.modules.values():
+    out[m.name]["<classes>"] = " ".join(sorted(m.classes))  # classes of the pinned tree (a record class that is not listed is new)
 json.dump(out, open(os.path.join(HERE, "octacheck", "known_functions.json"), "w"), indent=0, sort_keys=True)
 print(sum(len(v) for v in out.values()), "functions in", len(out), "modules")
